@@ -275,6 +275,46 @@ def number_ops_keep(ops):
     return [tuple(o) for o in ops]
 
 
+def partial_metrics_level(rep, scratch, ovh, sizes):
+    """Every subset of the four counters configured (and no metrics option at all): results and
+    the configured counters must be those of the fully instrumented cache (lru_observe); a
+    missing counter must not make a call panic."""
+    n = 10
+    cap2 = 2 * (sizes[n] + ovh)
+    ops = [("P", 1, n, 1), ("G", 1), ("G", 9), ("P", 2, n, 2), ("P", 3, n, 3), ("G", 1), ("G", 3), ("P", 3, n, 4), ("G", 2), ("G", 3)]
+    il, ml = [], []
+    masks = list(range(16)) + [-1]
+    for mk in masks:
+        il += ["CASE pm%d CAP %d MASK %d" % (mk, cap2, mk)] + ["P %d %d %d" % (o[1], o[2], o[3]) if o[0] == "P" else "G %d" % o[1] for o in ops]
+    ml += ["CASE pm CAP %d OVH %d" % (cap2, ovh)] + ["P %d %d %d" % (o[1], sizes[o[2]], o[3]) if o[0] == "P" else "G %d" % o[1] for o in ops]
+    ipath, mpath = scratch.path("c07-pm-impl.txt"), scratch.path("c07-pm-model.txt")
+    open(ipath, "w").write("\n".join(il) + "\n")
+    open(mpath, "w").write("\n".join(ml) + "\n")
+    lines, rc, err = core.run_impl(scratch, "c07", ipath, timeout=120)
+    impl = core.split_cases(lines)
+    want = core.split_cases(core.run_model("c07", mpath)).get("pm")
+    wcnt = [int(x) for x in want[-1].split()[1:]]          # get put hit miss
+    nbad = 0
+    for mk in masks:
+        got = strip_sizes(impl.get("pm%d" % mk) or [])
+        exp = list(want[:-1])
+        bits = {0: 4, 1: 8, 2: 1, 3: 2}                    # position in the CNT line -> mask bit
+        ok = got[:-1] == exp and len(got) == len(want)
+        if ok:
+            gc = [int(x) for x in got[-1].split()[1:]]
+            for pos in range(4):
+                expect = wcnt[pos] if (mk >= 0 and mk & bits[pos]) else 0
+                if gc[pos] != expect:
+                    ok = False
+        if not ok and nbad < 2:
+            rep.violation("monitor:counters", "cache with %s: results / counters %s, expected %s with counters (get, put, hit, miss) = %s on the configured ones%s" % (
+                "no metrics option" if mk < 0 else "only the counters of mask %d configured (1 hit, 2 miss, 4 get, 8 put)" % mk, got[-4:], exp[-3:], wcnt, "" if rc == 0 else " — harness exit %s: %s" % (rc, err[-200:])),
+                {"impl_lines": [l for l in il if True][:40], "mask": mk, "impl": got, "model": want})
+        if not ok:
+            nbad += 1
+    return len(masks), nbad
+
+
 def overlap_level(rep, scratch, ovh, sizes):
     """Two cache calls that overlap in time (the second is started while the first is inside
     the cache: its call counter blocks).  Whatever the cache does, the outcome must be that of
@@ -372,6 +412,8 @@ def run(rep, scratch, tier, seed, replay=None):
                       no_input=True)
     nov, nov_bad = overlap_level(rep, scratch, ovh, sizes) if not replay else (0, 0)
     rep.coverage["overlapping_call_scenarios"] = {"scenarios": nov, "failures": nov_bad}
+    npm, npm_bad = partial_metrics_level(rep, scratch, ovh, sizes) if not replay else (0, 0)
+    rep.coverage["partial_metrics_configurations"] = {"configurations": npm, "failures": npm_bad}
     sample = cases[min(len(cases) - 1, n_exh + 5)] if cases else None
     rep.coverage.update({
         "evaluations": len(cases), "operations_run": nops,
